@@ -397,6 +397,8 @@ def getattr_value(interp, st, base, attr, node=None):
         return I.Opaque(f"{base.what}.{attr}")
     if isinstance(base, I.RepoFunc) and attr == "__name__":
         return base.node.name
+    if isinstance(base, (I.UPred, I.UFunc)) and attr == "__name__":
+        return base.name_term
     if isinstance(base, I.ExcValue):
         return I.Opaque("exc-attr")
     raise Outside(f"attribute {attr} of {type(base).__name__}", node)
@@ -457,6 +459,9 @@ def call(interp, st, node):
     for a in node.args:
         if isinstance(a, ast.Starred):
             v = interp.ev(a.value, st)
+            if is_sym(v) and v.sort() == I.OBJ_SORT:
+                args.append(v)  # *args of an opaque argument tuple: passed on as one opaque value (only unknown callables accept it)
+                continue
             items = interp.lib.iter_values(interp, st, v, a)
             if not isinstance(items, list):
                 raise Outside("star-args of symbolic length", node)
@@ -467,6 +472,9 @@ def call(interp, st, node):
     for kw in node.keywords:
         if kw.arg is None:
             v = interp.ev(kw.value, st)
+            if is_sym(v) and v.sort() == I.OBJ_SORT:
+                kwargs["**"] = v
+                continue
             if not isinstance(v, dict):
                 raise Outside("** of non-dict", node)
             kwargs.update(v)
@@ -508,6 +516,15 @@ def call_value(interp, st, f, args, kwargs, node, self_node=None):
         if f.name in LIBFUNCS:
             return LIBFUNCS[f.name](interp, st, args, kwargs, node)
         raise Outside(f"call of unmodelled library function {f.name}", node)
+    if isinstance(f, I.UPred):
+        return f.call(args, kwargs)
+    if isinstance(f, I.UFunc):
+        return f.call(st, args, kwargs)
+    if isinstance(f, I.Opaque) and f.what == "super().__init__":
+        from .npmodel4 import _trust
+
+        _trust("super().__init__() of a dataset class (GPTDataset / torch Dataset define no __init__) has no effect")
+        return None
     if isinstance(f, I.Opaque):
         raise Outside(f"call of opaque {f.what}", node)
     raise Outside(f"call of {type(f).__name__}", node)
@@ -593,6 +610,8 @@ def inline_body(interp, st, fnode, env, mod, cls, node):
         n0 = len(st.pc) + len(st.guards)
         for f in o.st.pc[n0:]:
             st.assume(f)
+        if "self" in o.st.env:
+            st.env["__inline_self__"] = o.st.env["self"]
         return o.value
     # several returns: build a disjunction of path facts, merge values pairwise
     n0 = len(st.pc) + len(st.guards)
@@ -601,6 +620,11 @@ def inline_body(interp, st, fnode, env, mod, cls, node):
     for k in range(len(rets) - 2, -1, -1):
         val = merge(to_z3(conds[k]), rets[k].value, val)
     st.assume(b_or(*conds))
+    if all("self" in o.st.env for o in rets):
+        sv = rets[-1].st.env["self"]
+        for k in range(len(rets) - 2, -1, -1):
+            sv = merge(to_z3(conds[k]), rets[k].st.env["self"], sv)
+        st.env["__inline_self__"] = sv
     return val
 
 
@@ -613,7 +637,13 @@ def call_function(interp, st, f, args, kwargs, node, self_node=None):
     if con is None and not reg.may_inline(f):
         raise Outside(f"call of {f.qualname} which has no contract and is not inlinable", node)
     env = bind_params(interp, st, f.node, args, kwargs, f.mod, f.cls, node)
-    return inline_body(interp, st, f.node, env, f.mod, f.cls, node)
+    self_before = env.get("self")
+    res = inline_body(interp, st, f.node, env, f.mod, f.cls, node)
+    self_after = st.env.pop("__inline_self__", None)
+    if self_node is not None and isinstance(self_before, Rec) and self_after is not None and self_after is not self_before:
+        # the inlined method assigned attributes of self: the caller's object is that updated value
+        interp.assign(self_node, self_after, st)
+    return res
 
 
 def construct(interp, st, cref, args, kwargs, node):
@@ -626,6 +656,15 @@ def construct(interp, st, cref, args, kwargs, node):
         init = r[0]
     if init is not None:
         con = reg.contract_for(init)
+        if reg.may_inline(init) and (con is None or con.assumed):
+            # the real __init__ body is executed on a fresh record (no assumed contract needed)
+            obj = Rec(cref.name, {})
+            env = bind_params(interp, st, init.node, [obj] + args, kwargs, init.mod, init.cls, node)
+            inline_body(interp, st, init.node, env, init.mod, init.cls, node)
+            out = st.env.pop("__inline_self__", None)
+            if out is None:
+                raise Outside(f"constructor {cref.name}.__init__ could not be inlined", node)
+            return out
         if con is not None and not con.inline:
             return con.apply_at_call(interp, st, init, [cref] + args, kwargs, node, None, constructing=cref)
         raise Outside(f"constructor {cref.name}.__init__ without contract", node)
